@@ -205,6 +205,30 @@ def _ulp_diff(a, b):
     return worst
 
 
+def _ulp_mag(k, args, ra, rd):
+    """max |a - b| in units of eps * sum|terms| (from the numpy references)."""
+    eps = np.finfo(float).eps
+    arrs = [np.asarray(a) for a in args]
+    with quiet():
+        if k == "summate":
+            mags = [ok.summate(*arrs)[1]]
+        elif k == "summate_fourier":
+            mags = [ok.summate_fourier(*arrs)[1]]
+        elif k == "summate_incompr":
+            mags = [ok.summate_incompr(*arrs)[1]]
+        else:
+            f, e, mf, me = ok.krige(*arrs)
+            mags = [mf, me]
+    worst = 0.0
+    for x, y, m in zip(ra, rd, mags):
+        if x.shape != y.shape or not np.array_equal(np.isnan(x), np.isnan(y)):
+            return math.inf
+        fin = np.isfinite(x) & np.isfinite(y) & np.isfinite(m) & (m > 0)
+        if fin.any():
+            worst = max(worst, float(np.max(np.abs(x[fin] - y[fin]) / (eps * m[fin]))))
+    return worst
+
+
 @st.composite
 def gen_variants(draw, tier="quick"):
     k = draw(st.sampled_from(KERNELS))
@@ -268,6 +292,11 @@ def check_variants(case, rec):
         except Exception as e:  # noqa: BLE001
             raise Violation(f"{k}: plain interpretation of the .pyx raised {type(e).__name__}: {e} while the compiled kernel returned", dict(tags, kind="pyx_exception"))
         u = _ulp_diff(ra, rd)
+        if u > 4.0 and k in ("summate", "summate_incompr", "summate_fourier", "krige", "krige_var"):
+            # signed sums cancel: measure the difference in ulps of the summed magnitudes, not of the (small) result.
+            # (gcc may merge sin(x), cos(x) into one sincos(x) call whose results can differ from libm's separate
+            # sin / cos in the last bit; observed: 0.25 ulp of the partial sums = 8 ulp of a cancelled result)
+            u = _ulp_mag(k, args, ra, rd)
         rec.discrepancy("pyx_ulp", u, 4.0)
         require(u <= 4.0, f"{k}: compiled artefact differs from a plain interpretation of its .pyx source by {u:.3g} ulp", dict(tags, kind="pyx_vs_compiled"))
     # E: numpy reference of the defining sums
